@@ -45,6 +45,8 @@ CHECKS = {
          "Only governance (or the chain admin via migrate) changes the allow list, default gas limit or admin; entries never disappear, limits never fall, unlimited stays unlimited, the default is never unset; cw20 transfers need an entry or a default; each payout carries the token's entry (even None) else the default; checked across v1/v2 migrations too.", TBA),
  "C19": ("cwv-direct", "online consistency monitor of three query views over seeded random histories, including synthesised pre-0.14 storage carried through the real migrate",
          "After every call the Allowance point query, paged AllAllowances and paged AllSpenderAllowances are compared for all pool pairs; a third of the histories start from a legacy layout (versions 0.9-0.13, no spender table) and run the real migrate first.", TB),
+ "C20": ("cwv-app", "pagination walker: every listing of every contract is walked to exhaustion with 13 limits, cursor = last returned key, and compared with the item set the harness created and with the point queries",
+         "16 listings x item counts {0,1,9,10,11,29,30,31,32,65} (complete grid) plus random sizes in the thorough tier: page <= min(limit|10,30), no empty page before the end, absent limit pages exactly like limit 10, keys strictly ordered (descending for ReverseProposals), walk = item set, listed values = point queries; subkeys allowances with expired entries interleaved.", TBA),
 }
 
 ALL = ["C%02d" % i for i in range(1, 21)]
@@ -82,7 +84,7 @@ def main():
              "kind_free_text": "cw-multi-test App hosting the real contracts plus recorder modules (bank, IBC), sink contract, IBC shim and fault injection; online monitors and event-log checkers"},
         ],
         "checks": checks,
-        "not_applicable": [{"property_id": p, "reason": "monitor not built yet in this session (runtime monitoring applies; design in DESIGN.md section 5)"} for p in ALL if p not in CHECKS],
+        "not_applicable": [{"property_id": p, "reason": "monitor not built yet (runtime monitoring applies; design in DESIGN.md section 5)"} for p in ALL if p not in CHECKS],
         "notes": "Technique family: runtime monitoring. All checks are `./check <id> <tier>`; exit 0 held / 1 VIOLATION / 2 INCONCLUSIVE. Known findings live in KNOWN_FINDINGS.txt.",
     }
     with open(os.path.join(ROOT, "MANIFEST.json"), "w") as f:
